@@ -21,7 +21,7 @@ import (
 )
 
 func init() {
-	pbt.Describe("store: logs (seeded record contents of 0-39 bytes) appended one record at a time through StoredHashes into a dense slice, every position checked against the independent layout enumerator and RFC 6962 MTH over leaf data, tree hashes for sampled sizes m<=n; coords: (level<=40, offset) pairs with level+bits(offset)<=60 and raw indexes up to 2^61 against a closed form that is itself validated against the enumerator; tree/record/hash text: generated values and texts (valid, invalid, mutated) through Format/Parse, String/ParseHash and JSON. Non-trivial: store = n>=3; coords = level>=1; texts = a well-formed value or one mutation away. Distinct by JSON rendering.",
+	pbt.Describe("store: logs (seeded record contents of 0-39 bytes) appended one record at a time through StoredHashes into a dense slice, every position checked against the independent layout enumerator and RFC 6962 MTH over leaf data, tree hashes for sampled sizes m<=n; coords: (level<=40, offset) pairs with level+bits(offset)<=60 and raw indexes up to 2^61 against a closed form that is itself validated against the enumerator; tree/record/hash text: generated values and texts (valid, invalid, mutated) through Format/Parse, String/ParseHash and JSON. Non-trivial: store = n>=3; coords = level>=1; texts = a well-formed value or one mutation away. Distinct by JSON rendering. The record case formats up to three further records, a tree head and a parse while the first message is held, then compares every held message with what it read when returned; same for FormatTree.",
 		"merkleref (RFC 6962 over leaf data) and its layout enumerator ('after leaf i, every subtree it completes, bottom-up') are correct",
 		"record texts that start with a newline are accepted by FormatRecord although the doc comment forbids blank lines; acceptance of that shape is not asserted, only the round trip",
 		"tree sizes stay below 2^62 (stored-hash indexes are int64)")
@@ -303,6 +303,14 @@ func checkTreeText(c treeText) pbt.Result {
 		r.Fail = pbt.Failf("formattree", "FormatTree = %q, documented form %q", text, want)
 		return r
 	}
+	// the text stays what it is while other heads are formatted
+	want := string(text)
+	tlog.FormatTree(tlog.Tree{N: c.N/2 + 7})
+	tlog.FormatTree(tlog.Tree{N: 1<<62 + c.N/2, Hash: tlog.Hash{1, 2, 3}})
+	if string(text) != want {
+		r.Fail = pbt.Failf("formatted-tree-changed-later", "the text FormatTree returned read %q and reads %q after two later calls", want, text)
+		return r
+	}
 	back, err := tlog.ParseTree(text)
 	if err != nil || back != tree {
 		r.Fail = pbt.Failf("tree-roundtrip", "ParseTree(FormatTree(%v)) = %v, %v", tree, back, err)
@@ -382,6 +390,7 @@ type recordText struct {
 	Rest    string
 	BigText int // >0: the text is followed by copies of a valid line up to about this many bytes
 	BigRest int // >0: the rest is followed by further well-formed records up to about this many bytes
+	Next    []string // texts of further records formatted afterwards (ids follow on), while the first message is still held
 }
 
 const padLine = "example.com/padding v1.0.0 h1:AAAAAAAAAAAAAAAAAAAAAAAAAAAAAAAAAAAAAAAAAAA=\n"
@@ -423,6 +432,10 @@ func genRecordText(t *rapid.T) recordText {
 		c.Text = rapid.String().Draw(t, "arbtext")
 	}
 	c.Rest = []string{"", "7\nnext record\n\n", "\n", "\n\n", "go.sum database tree\n5\nAAAA\n", "x"}[rapid.IntRange(0, 5).Draw(t, "rest")]
+	// a server formats many records in a row and keeps the messages (a data tile is their concatenation)
+	for i := rapid.IntRange(0, 3).Draw(t, "nnext"); i > 0; i-- {
+		c.Next = append(c.Next, recordLines[rapid.IntRange(0, 9).Draw(t, "nextline")]+"\n"+strings.Repeat("y", rapid.IntRange(0, 40).Draw(t, "nextpad"))+"\n")
+	}
 	// long records and long streams of records (size thresholds of scanners and parsers)
 	if gen.Uniform(t, 400, "bigtext") == 0 {
 		c.BigText = bigSizes[rapid.IntRange(0, len(bigSizes)-1).Draw(t, "bigtextn")]
@@ -480,6 +493,30 @@ func checkRecordText(c recordText) pbt.Result {
 	id, text, rest, err := tlog.ParseRecord(append(append([]byte(nil), msg...), c.Rest...))
 	if err != nil || id != c.ID || string(text) != c.Text || string(rest) != c.Rest {
 		r.Fail = pbt.Failf("record-roundtrip", "ParseRecord(FormatRecord(%d, text of %d bytes %.60q...) + rest of %d bytes) = (%d, text of %d bytes, rest of %d bytes, %v)", c.ID, len(c.Text), c.Text, len(c.Rest), id, len(text), len(rest), err)
+		return r
+	}
+	// a formatted record stays what it is while further records and tree heads are formatted and parsed
+	if len(c.Next) > 0 && len(c.Next) <= 8 {
+		r.Classes = append(r.Classes, "message held across later calls")
+		held := [][]byte{msg}
+		wants := []string{fmt.Sprintf("%d\n%s\n", c.ID, c.Text)}
+		for i, nt := range c.Next {
+			nid := (c.ID + int64(i) + 1) & (1<<62 - 1)
+			m2, err := tlog.FormatRecord(nid, []byte(nt))
+			if v, _ := docValid(nt); err != nil || !v {
+				continue
+			}
+			tlog.FormatTree(tlog.Tree{N: nid})
+			tlog.ParseRecord(m2)
+			held = append(held, m2)
+			wants = append(wants, fmt.Sprintf("%d\n%s\n", nid, nt))
+		}
+		for i := range held {
+			if string(held[i]) != wants[i] {
+				r.Fail = pbt.Failf("formatted-record-changed-later", "the message FormatRecord returned for record %d of this run read %.80q when returned and reads %.80q after %d later calls", i, wants[i], held[i], len(held)-1-i)
+				return r
+			}
+		}
 	}
 	return r
 }
